@@ -265,6 +265,19 @@ def vm_cond(ctx):
                             n_whole += 1
             if n_whole < 2 or not loops_ok:
                 errs.append('the scan does not range over every entry of both states and every dot')
+            # .. and none of the scan loops is left early unless there is something to report: in a world without any reused dot
+            # (and without concurrent equal keys) no edge out of a loop is taken before the loop is exhausted
+            for same_ in (True, False):
+                for o_ in (LT, GT):
+                    rcw = Reach(facts, vb, Evaluator(facts, classify=classify, bool_atom=atom, assumption={'same': same_, 'dot': o_, 'conc': False}))
+                    for lp_ in loops_of(it):
+                        inner_ = lp_.inner(rcw)
+                        edges_ = rcw.rel_edges(lp_.start, (lp_.head,))
+                        for e_ in lp_.early_exits():
+                            if e_ in inner_ and any(y not in lp_.blocks and vb.blocks[y]['term']['k'] != 'unreachable' for y in edges_.get(e_, [])):
+                                msg_ = 'a scan loop can be left early (line %d) although nothing was found: pairs after that point are never checked' % block_line(it, e_)
+                                if msg_ not in errs:
+                                    errs.append(msg_)
             # no verdict without the scan: every path to an `Ok` return goes through the outermost scan loop
             encl = [lp for lp in loops_of(it) if ebs[0] in lp.blocks or any(b in lp.blocks for b in it.preds.get(ebs[0], []))]
             encl = encl or [lp for lp in loops_of(it) if fr and fr[1] in lp.blocks]
